@@ -163,9 +163,9 @@ fn authenticate_message(lm_challenge_response: &[u8], nt_challenge_response:&[u8
 fn get_payload_field(message: &Component, length: u16, buffer_offset: u32) -> RdpResult<&[u8]> {
     let payload = cast!(DataType::Slice, message["Payload"])?;
     let offset = message.length() as usize - payload.len();
-    let start = buffer_offset as usize - offset;
+    let start = (buffer_offset as usize).checked_sub(offset).ok_or(Error::RdpError(RdpError::new(RdpErrorKind::InvalidSize, "NTLM: payload field offset inside the header")))?;
     let end = start + length as usize;
-    Ok(&payload[start..end])
+    payload.get(start..end).ok_or(Error::RdpError(RdpError::new(RdpErrorKind::InvalidSize, "NTLM: payload field outside the message")))
 }
 
 
@@ -553,7 +553,7 @@ impl AuthenticationProtocol  for Ntlm {
             target_info[&AvId::MsvAvTimestamp].clone()
         }
         else {
-            panic!("no timestamp available")
+            return Err(Error::RdpError(RdpError::new(RdpErrorKind::InvalidData, "NTLM: no timestamp available in target info")))
         };
 
         // generate client challenge
